@@ -77,6 +77,23 @@ Definition tf_roundtrip (sh : shape) (s : ost) : ost :=
   MkO (map (fun x => (fst x, import_admin (sh_tf_import sh) (fst (fst x)) (snd x))) (dedup_admin (o_admin s) []))
       (o_e2d s) (o_d2e s) (o_pend s) (o_esc s) (o_next s).
 
+(** skyway: ExportGenesis lists the denom -> erc20 index (one entry per denom, in store order);
+    InitGenesis calls setDenomToERC20 for each in turn, which writes BOTH indexes: the erc20 -> denom
+    index is rebuilt from the forward index (stale reverse entries disappear; if two denoms point to
+    the same contract the one imported last wins). [order] is the export order as observed; denoms it
+    misses are appended, so that the function is total. *)
+Fixpoint dedup_keys {A} (l : list (denom * A)) (seen : list denom) : list denom :=
+  match l with
+  | [] => []
+  | (d, _) :: r => if existsb (denom_eqb d) seen then dedup_keys r seen else d :: dedup_keys r (d :: seen)
+  end.
+
+Definition complete_order (order : list denom) (l : list (denom * Z)) : list denom :=
+  order ++ filter (fun d => negb (existsb (denom_eqb d) order)) (dedup_keys l []).
+
+Definition exported_pairs (order : list denom) (l : list (denom * Z)) : list (denom * Z) :=
+  flat_map (fun d => match dfind d l with Some e => [(d, e)] | None => [] end) (complete_order order l).
+
 Inductive oop :=
 | OCreate (p sub : Z) (wf : bool)              (* tokenfactory.MsgCreateDenom; wf: subdenom well-formed *)
 | OChangeAdmin (p dc ds na : Z)                (* tokenfactory.MsgChangeAdmin of denom (dc, ds) to na *)
@@ -86,7 +103,12 @@ Inductive oop :=
 | OSend (p dc ds : Z) (funded : bool)          (* skyway.MsgSendToRemote; funded: p holds the coins (bank input) *)
 | OCancel (p tx : Z)                           (* skyway.MsgCancelSendToRemote *)
 | OGenesis (module : Z)                        (* ExportGenesis -> InitGenesis; 1 = tokenfactory *)
+| OGenesisSky (order : list denom)             (* ... of skyway; order: the exported denom -> erc20 entries *)
 | OOther.                                      (* a step outside this projection (oracle only) *)
+
+Definition sky_roundtrip (order : list denom) (s : ost) : ost :=
+  let pairs := exported_pairs order (o_d2e s) in
+  MkO (o_admin s) (rev (map (fun x => (snd x, fst x)) pairs)) (rev pairs) (o_pend s) (o_esc s) (o_next s).
 
 Definition remove_tx (tx : Z) (l : list (Z * (Z * Z))) : list (Z * (Z * Z)) :=
   filter (fun x => negb (fst x =? tx)) l.
@@ -95,7 +117,7 @@ Definition ostep (sh : shape) (s : ost) (op : oop) : ost * bool :=
   match op with
   | OCreate p sub wf =>
       let d := (p, sub) in
-      if wf && (match admin_of s d with None => true | Some _ => false end)
+      if wf && negb (p =? 0) && (match admin_of s d with None => true | Some _ => false end)
       then (MkO ((d, p) :: o_admin s) (o_e2d s) (o_d2e s) (o_pend s) (o_esc s) (o_next s), true)
       else (s, false)
   | OChangeAdmin p dc ds na =>
@@ -146,6 +168,7 @@ Definition ostep (sh : shape) (s : ost) (op : oop) : ost * bool :=
       | None => (s, false)
       end
   | OGenesis m => if m =? 1 then (tf_roundtrip sh s, true) else (s, true)
+  | OGenesisSky order => (sky_roundtrip order s, true)
   | OOther => (s, true)
   end.
 
@@ -157,7 +180,7 @@ Definition signer (auth : Z) (op : oop) : option Z :=
   match op with
   | OCreate p _ _ | OChangeAdmin p _ _ _ | OMint p _ _ | OBind p _ _ _ _ | OSend p _ _ _ | OCancel p _ => Some p
   | OGovBind _ _ _ => Some auth
-  | OGenesis _ | OOther => None
+  | OGenesis _ | OGenesisSky _ | OOther => None
   end.
 
 (** The shape of the code the theorems need. *)
